@@ -232,7 +232,7 @@ class Clause:
 
 class LoopSpec:
     def __init__(self, k):
-        self.k = k; self.invariants = []; self.decreases = None; self.assigns = None; self.ghost_updates = []; self.uses = []
+        self.k = k; self.invariants = []; self.on_exit = []; self.decreases = None; self.assigns = None; self.ghost_updates = []; self.uses = []
 
 
 class FuncSpec:
@@ -335,7 +335,7 @@ class SpecDB:
                     w = rest.split(None, 1); head = w[0]; rest = w[1].strip() if len(w) > 1 else ''
                 label = None
                 m = re.match(r'^\[([A-Za-z0-9_.-]+)\]\s*(.*)$', rest)
-                if m and head in ('requires', 'ensures', 'invariant', 'exits_iff'):
+                if m and head in ('requires', 'ensures', 'invariant', 'exits_iff', 'on_exit'):
                     label = m.group(1); rest = m.group(2)
                 if head == 'source':
                     self.cur_source = rest.strip()
@@ -409,6 +409,15 @@ class SpecDB:
                 elif head == 'invariant':
                     if loop is None: raise SpecError('invariant outside loop')
                     loop.invariants.append(Clause('invariant', self.expand(parse_expr(rest)), rest, engines, label, ln))
+                elif head == 'call':
+                    m2 = re.match(r'^(\w+)\s*=\s*(\S+?)\((.*)\)\s*$', rest)
+                    if not m2 or not isinstance(ctx, Lemma): raise SpecError('call: expected `call r = KEY(args)` inside a lemma')
+                    if not hasattr(ctx, 'calls'): ctx.calls = []
+                    call_ex = self.expand(parse_expr('__args(' + m2.group(3) + ')'))
+                    ctx.calls.append((m2.group(1), m2.group(2), list(call_ex.args)))
+                elif head == 'on_exit':
+                    if loop is None: raise SpecError('on_exit outside loop')
+                    loop.on_exit.append(Clause('on_exit', self.expand(parse_expr(rest)), rest, engines, label, ln))
                 elif head == 'decreases':
                     c = Clause('decreases', self.expand(parse_expr(rest)), rest, engines, label, ln)
                     if loop is not None: loop.decreases = c
